@@ -352,6 +352,6 @@ def run_direct(ctx, case):
 
 
 STREAMS = [
-    Stream("pipeline_on_simulated_races", gen, run, quick=320, thorough=12000, shards=16),
-    Stream("pipeline_direct_sizes", gen_direct, run_direct, quick=160, thorough=4000, shards=16),
+    Stream("pipeline_on_simulated_races", gen, run, quick=320, thorough=100000, shards=16),
+    Stream("pipeline_direct_sizes", gen_direct, run_direct, quick=160, thorough=12000, shards=16),
 ]
